@@ -290,13 +290,12 @@ theorem potOf_eq_get (dom : Dom) (g : RG.Graph) (θ : CliqueVec ℝ) (r : RG.Reg
 
 /-! ### generalised belief propagation (`marginal_oracle='approx'`) -/
 
-theorem keeps_gbp (dom : Dom) (g : RG.Graph) (iters : Nat) (T : ℝ) (loss : CliqueVec ℝ → ℝ × CliqueVec ℝ)
+/-- one generated `generalized_belief_propagation` call (no loss involved): valid tables out, state invariant kept -/
+theorem gbp_call_inv (dom : Dom) (g : RG.Graph) (iters : Nat) (T : ℝ)
     (hT : 0 < T) (hdom : PosDom dom) (hg : GraphHyp dom g)
-    (hgrad : ∀ mu, TablesOn T g.cliques mu → Laid dom g.cliques (loss mu).2) :
-    Keeps (pyOps (objGBP dom g iters) loss) (Laid dom g.cliques) (TablesOn T g.cliques) (RGInv T) := by
-  refine ⟨?_, ?_, ?_⟩
-  · intro st θ hI hP
-    obtain ⟨hm, ht⟩ := hI
+    (st : RGState ℝ) (θ : CliqueVec ℝ) (hI : RGInv T st) (hP : Laid dom g.cliques θ) :
+    TablesOn T g.cliques ((objGBP dom g iters).bp st θ).1 ∧ RGInv T ((objGBP dom g iters).bp st θ).2 := by
+  · obtain ⟨hm, ht⟩ := hI
     have hcl : ∀ r ∈ g.cliques, PosDom (θ.get r).dom ∧ (θ.get r).vals.data.size ≠ 0 :=
       fun r hr => hP.pos hdom (fun c hc => (hg.cl_ok c hc).2) r hr
     have hpot : ∀ e ∈ g.messageOrder, PosDom (RG.potOf dom g θ e.1).dom := by
@@ -314,6 +313,14 @@ theorem keeps_gbp (dom : Dom) (g : RG.Graph) (iters : Nat) (T : ℝ) (loss : Cli
       unfold C17G.genGbp
       rw [C17G.gen_gbp dom g θ st.total iters st.messages hg.src, PGM.RGGen.gbp_eq_exit]
       exact iterate_inv PosMsgs _ (fun m hm' => gbpSweep_pos g _ m hpot hm') iters st.messages hm
+
+theorem keeps_gbp (dom : Dom) (g : RG.Graph) (iters : Nat) (T : ℝ) (loss : CliqueVec ℝ → ℝ × CliqueVec ℝ)
+    (hT : 0 < T) (hdom : PosDom dom) (hg : GraphHyp dom g)
+    (hgrad : ∀ mu, TablesOn T g.cliques mu → Laid dom g.cliques (loss mu).2) :
+    Keeps (pyOps (objGBP dom g iters) loss) (Laid dom g.cliques) (TablesOn T g.cliques) (RGInv T) := by
+  refine ⟨?_, ?_, ?_⟩
+  · intro st θ hI hP
+    exact gbp_call_inv dom g iters T hT hdom hg st θ hI hP
   · intro θ a mu hP hQ
     exact laid_update dom g.cliques θ (loss mu).2 a hP (hgrad mu hQ)
   · intro st hI
@@ -495,18 +502,15 @@ theorem objLBP_bp_eq (dom : Dom) (cliques : List Clique) (iters : Nat) (st : FGS
   ⟨C16.FGG.gen_lbp_return dom cliques st.total iters ⟨st.messages.1, st.messages.2⟩ θ,
    C16.FGG.gen_lbp_messages dom cliques st.total iters ⟨st.messages.1, st.messages.2⟩ θ, rfl, rfl⟩
 
-theorem keeps_lbp (dom : Dom) (cliques : List Clique) (iters : Nat) (T : ℝ) (loss : CliqueVec ℝ → ℝ × CliqueVec ℝ)
+/-- one generated `loopy_belief_propagation` call (no loss involved): valid tables out, state invariant kept -/
+theorem lbp_call_inv (dom : Dom) (cliques : List Clique) (iters : Nat) (T : ℝ)
     (hT : 0 < T) (hdom : PosDom dom) (hnd : cliques.Nodup) (hcl : ∀ c ∈ cliques, PGM.Convex.RegOK dom c)
-    (hgrad : ∀ mu, TablesOn T cliques mu → Laid dom cliques (loss mu).2) :
-    Keeps (pyOps (objLBP dom cliques iters) loss) (Laid dom cliques) (TablesOn T cliques) (FGInv T) := by
-  refine ⟨?_, ?_, ?_⟩
-  · intro st θ hI hP
-    obtain ⟨hm, ht⟩ := hI
+    (st : FGState ℝ) (θ : CliqueVec ℝ) (hI : FGInv T st) (hP : Laid dom cliques θ) :
+    TablesOn T cliques ((objLBP dom cliques iters).bp st θ).1 ∧ FGInv T ((objLBP dom cliques iters).bp st θ).2 := by
+  · obtain ⟨hm, ht⟩ := hI
     have hc : ∀ r ∈ cliques, PosDom (θ.get r).dom ∧ (θ.get r).vals.data.size ≠ 0 :=
       fun r hr => hP.pos hdom (fun c hc => (hcl c hc).2) r hr
     obtain ⟨e1, e2, -, e4⟩ := objLBP_bp_eq dom cliques iters st θ
-    have hb : (pyOps (objLBP dom cliques iters) loss).bp = (objLBP dom cliques iters).bp := rfl
-    rw [hb]
     refine ⟨⟨?_, ?_⟩, ?_, e4.trans ht⟩
     · rw [e1]; exact C16.lbp_keys dom cliques θ st.total iters _ hnd
     · intro p hp
@@ -516,6 +520,14 @@ theorem keeps_lbp (dom : Dom) (cliques : List Clique) (iters : Nat) (T : ℝ) (l
     · rw [e2]
       show PosState (RG.iterate (FG.lbpSweep dom cliques θ) iters ⟨st.messages.1, st.messages.2⟩)
       exact iterate_inv PosState _ (fun m hm' => lbpSweep_pos dom cliques θ m (fun cl h => (hc cl h).1) hm') iters _ hm
+
+theorem keeps_lbp (dom : Dom) (cliques : List Clique) (iters : Nat) (T : ℝ) (loss : CliqueVec ℝ → ℝ × CliqueVec ℝ)
+    (hT : 0 < T) (hdom : PosDom dom) (hnd : cliques.Nodup) (hcl : ∀ c ∈ cliques, PGM.Convex.RegOK dom c)
+    (hgrad : ∀ mu, TablesOn T cliques mu → Laid dom cliques (loss mu).2) :
+    Keeps (pyOps (objLBP dom cliques iters) loss) (Laid dom cliques) (TablesOn T cliques) (FGInv T) := by
+  refine ⟨?_, ?_, ?_⟩
+  · intro st θ hI hP
+    exact lbp_call_inv dom cliques iters T hT hdom hnd hcl st θ hI hP
   · intro θ a mu hP hQ
     exact laid_update dom cliques θ (loss mu).2 a hP (hgrad mu hQ)
   · intro st hI
@@ -596,13 +608,13 @@ theorem gen_local_estimate_tables_valid_pairwise (dom : Dom) (meas : List (Loss.
 
 /-! ### the convex oracle (`marginal_oracle='convex'`) -/
 
-theorem keeps_hps (dom : Dom) (g : RG.Graph) (conv : ℝ) (iters : Nat) (T : ℝ) (loss : CliqueVec ℝ → ℝ × CliqueVec ℝ)
+/-- one generated `hazan_peng_shashua` call (no loss involved): valid tables out, state invariant kept -/
+theorem hps_call_inv (dom : Dom) (g : RG.Graph) (conv : ℝ) (iters : Nat) (T : ℝ)
     (hT : 0 < T) (hi : 0 < iters) (hdom : PosDom dom) (hg : GraphHyp dom g)
-    (hgrad : ∀ mu, TablesOn T g.regions mu → Laid dom g.cliques (loss mu).2) :
-    Keeps (pyOps (objHPS dom g (fun _ => (1 : ℝ)) conv iters) loss) (Laid dom g.cliques) (TablesOn T g.regions) (RGInv T) := by
-  refine ⟨?_, ?_, ?_⟩
-  · intro st θ hI hP
-    obtain ⟨hm, ht⟩ := hI
+    (st : RGState ℝ) (θ : CliqueVec ℝ) (hI : RGInv T st) (hP : Laid dom g.cliques θ) :
+    TablesOn T g.regions ((objHPS dom g (fun _ => (1 : ℝ)) conv iters).bp st θ).1 ∧
+      RGInv T ((objHPS dom g (fun _ => (1 : ℝ)) conv iters).bp st θ).2 := by
+  · obtain ⟨hm, ht⟩ := hI
     have hcl : ∀ r ∈ g.cliques, PosDom (θ.get r).dom ∧ (θ.get r).vals.data.size ≠ 0 :=
       fun r hr => hP.pos hdom (fun c hc => (hg.cl_ok c hc).2) r hr
     have hpo : ∀ r ∈ g.regions, PosDom (RG.potOf dom g θ r).dom ∧ (RG.potOf dom g θ r).vals.data.size ≠ 0 := by
@@ -612,7 +624,7 @@ theorem keeps_hps (dom : Dom) (g : RG.Graph) (conv : ℝ) (iters : Nat) (T : ℝ
     have hpot : ∀ r ∈ g.regions, PosDom (RG.potOf dom g θ r).dom ∧
         ∀ p ∈ RG.look g.parents r, PosDom (RG.potOf dom g θ p).dom :=
       fun r hr => ⟨(hpo r hr).1, fun p hp => (hpo p (hg.par r hr p hp)).1⟩
-    have hb : (pyOps (objHPS dom g (fun _ => (1 : ℝ)) conv iters) loss).bp st θ
+    have hb : (objHPS dom g (fun _ => (1 : ℝ)) conv iters).bp st θ
         = ((RGG.hazanPengShashua dom g.regions g.cliques g.children g.parents (fun _ => (1 : ℝ)) st.total st.damping conv iters θ st.messages).1,
            { st with messages :=
               (RGG.hazanPengShashua dom g.regions g.cliques g.children g.parents (fun _ => (1 : ℝ)) st.total st.damping conv iters θ st.messages).2 }) := rfl
@@ -627,6 +639,14 @@ theorem keeps_hps (dom : Dom) (g : RG.Graph) (conv : ℝ) (iters : Nat) (T : ℝ
       rw [C17G.gen_hps dom g _ θ st.total st.damping conv iters st.messages hg.par]
       exact hpsLoop_msgs_inv g _ _ st.total st.damping conv PosMsgs
         (fun msgs hm' => hpsSweep_pos g _ _ st.total st.damping msgs hpot hm') iters 0 st.messages [] hm
+
+theorem keeps_hps (dom : Dom) (g : RG.Graph) (conv : ℝ) (iters : Nat) (T : ℝ) (loss : CliqueVec ℝ → ℝ × CliqueVec ℝ)
+    (hT : 0 < T) (hi : 0 < iters) (hdom : PosDom dom) (hg : GraphHyp dom g)
+    (hgrad : ∀ mu, TablesOn T g.regions mu → Laid dom g.cliques (loss mu).2) :
+    Keeps (pyOps (objHPS dom g (fun _ => (1 : ℝ)) conv iters) loss) (Laid dom g.cliques) (TablesOn T g.regions) (RGInv T) := by
+  refine ⟨?_, ?_, ?_⟩
+  · intro st θ hI hP
+    exact hps_call_inv dom g conv iters T hT hi hdom hg st θ hI hP
   · intro θ a mu hP hQ
     exact laid_update dom g.cliques θ (loss mu).2 a hP (hgrad mu hQ)
   · intro st hI
@@ -1028,8 +1048,9 @@ reduces the `hgrad` hypothesis of section 2 to the layout of the ORACLE's answer
 `NormalisedOn` do not record (they speak of the cell values only): with these predicates as the `Q` of `Keeps`, `hgrad` cannot
 be discharged for the generated loss.  Carrying `Laid` of the marginals through the three oracles needs an invariant on the
 DOMAINS of the persisted messages (`RGInv` / `FGInv` record positivity only); for `'convex'` the marginals — hence the
-gradient — are keyed by `g.regions`, not by `g.cliques`, so there the gradient can only be laid out `get`-wise.  NOT proved
-here (open). -/
+gradient — are keyed by `g.regions`, not by `g.cliques`, so there the gradient can only be laid out `get`-wise.  Proved in
+`Properties/C18H.lean` (`gen_lbp_laid` / `gen_gbp_laid` / `gen_hps_laid`, and the `…_L2` / `…_L1` end-to-end theorems without
+`hgrad`). -/
 section lossHalf
 variable {α : Type} [Scalar α]
 
